@@ -3,11 +3,13 @@ files hold the returned values to the written precision.
 
 History facet `machine`: a Hypothesis rule-based state machine over ONE shared world per history (c18_world.World:
 wrapped + unwrapped Snapshots of the same trajectory, an orientation Snapshots in 2D, shared per-particle fields,
-parameter matrices, synthetic neighbour / weight files).  Rules = "call public entry point X with drawn parameters"
-(catalogue in c18_entries.py, 50+ entry points).  After EVERY step:
+parameter matrices, synthetic neighbour / weight / Voronoi-index / dump / log files).  Rules = "call public entry point
+X with drawn parameters" (catalogue in c18_entries.py, 70+ entries in 14 families; which of the public callables of
+PyMatterSim they exercise is measured, see `flag_coverage`).  After EVERY step:
   (1) every array reachable from the snapshots and every argument array has the dtype, shape and bytes of its pristine
-      copy; input files and dict arguments are unchanged                                   [World.check_pure]
-  (2) if (X, params, out) was called before in this history the result equals the stored one bit-for-bit
+      copy; input files and dict / list arguments are unchanged                            [World.check_pure]
+  (2) if (X, params, out) was called before in this history the result equals the one returned then (a detached copy
+      taken at return time) bit-for-bit                                                     [History.call]
   (3) a requested output file parses back to the returned values at the written precision   [inside each entry]
   (4) (sometimes, `dup`) the same call on a bit-identical deep copy of the inputs (a second world rebuilt from the same
       arguments: different object identities, same values) gives the identical result -- "same inputs => same results"
@@ -19,13 +21,42 @@ parameter matrices, synthetic neighbour / weight files).  Rules = "call public e
       input files in place with the contents B of a second world of identical structure (no library call in between);
       call X again -> must equal X on a freshly built B; write A back in place; call X -> must equal the first result
       (different values in the SAME object: memos keyed on object identity / shape / file name).
-Analysis objects (gr / sq / boo_3d / boo_2d / Dynamics / LogDynamics instances) are, when `reuse` is drawn, kept alive
-and shared between calls of the history, as in an interactive session; the expected result does not depend on it.
+  (7) every array / DataFrame that a call RETURNED to the caller (plus the result attributes the entry reads off the
+      analysis object: s2_results, QIJ, smallqlm, ParticlePhi) still has, at every later step, the bytes it had when the
+      call returned -- "the file holds the values that were returned" and "calling it again returns identical results"
+      presuppose that returned values are not rewritten behind the caller's back (a later method normalising the
+      object's cached array in place, a recycled buffer).  Sound because it is only demanded while the harness has not
+      rebuilt / overwritten the inputs (a result may alias an input: voropp.get_input returns the box-bound arrays), and
+      no routine documents its return value as a live view.                                 [History.check_watch]
+Analysis objects (gr / sq / boo_3d / boo_2d / Dynamics / LogDynamics / S2 / NematicOrder / HessianMatrix / DumpReader)
+are, when `reuse` is drawn (2 in 3 calls), kept alive and shared between the calls of the history, as in an interactive
+session: method chains on one live object in any order with other methods in between.  The expected result never
+depends on it (c18_entries: `make` puts a new object into the state the chain starts from).
+
+Worlds: 80 % ordinary (valid-input domain of c18_world), 20 % unusual-but-accepted (`variant`: species labels {1,3} /
+{2,3} / {2} / {1,2,4} / 0-based, per-frame permuted labels, int32 labels, non-contiguous position views, logarithmic
+time steps).  Purity is promised for ANY call: in such an off-domain world an exception raised inside PyMatterSim is a
+refusal, not a violation (tag `rejected-input`; it must then refuse again when the call is repeated), but (1) is checked
+after the refusal as well and calls that return are subject to (1)-(7) like anywhere else.  In ordinary worlds an
+exception is a violation, as before.
+
+Facet `chains`: one family of methods that share an analysis object (s2, nematic, boo, pair, dyn, hess): 4-7 drawn
+(method, params, out) calls on ONE set of live objects, then two of the earlier calls again; (1), (2), (3), (7).
+
+Facet `flag_coverage` (finite, deterministic; c18_inventory.py): every (entry, params, output on/off) once (and, in the
+two ordinary worlds, every (entry, params) again in the opposite order: a repeat with the whole catalogue in between),
+through one set of live objects per fixed world (two ordinary worlds in full, eleven small ones for the label / dtype / layout /
+time-step variants and the 1-, 4-, 5-species methods) with (1), (3), (7); while it runs a profiler hook records which
+public callables of PyMatterSim (inventory by pkgutil + inspect) are entered straight from the harness and with which
+values of their flag keywords (bool default / Enum / Literal / documented choice).  Reported in the evidence: callables
+found / exercised directly / only indirectly / not exercised with the reason; per flag the values exercised.  A flag of a
+directly exercised routine that no entry varies over all its values (and is not exempt with a written reason) is a
+HARNESS error (exit 2), not a violation.
 
 Facets `single_<family>`: for one catalogue entry drawn at random: call - check purity - another call of the family -
 call again - compare - both on a deep copy in the opposite order - compare - (re-allocate all inputs, call, compare) -
-mutate-and-restore as in (6).  Cheap, high volume, and a defect of one entry point is reported per family, separately from
-the history facet.
+mutate-and-restore as in (6); (7) across the calls on the shared world.  Cheap, high volume, and a defect of one entry
+point is reported per family, separately from the history facet.
 """
 from __future__ import annotations
 
@@ -43,39 +74,59 @@ from .c18_entries import CATALOGUE, FAMILIES, Ctx, eligible
 from .c18_inventory import NOT_RUNNABLE, SKIP_MODULES, CallTracer, flag_report, inventory
 from .c18_world import ORIGINS, VARIANTS, World, detach, fingerprint, has_arrays, same
 
-RULE = ("histories of <= 10 calls of public analysis entry points (catalogue of %d, grouped in %d families) on one shared "
-        "world: d in {2,3}, N 8..16, 2..3 frames, K 1..3 species, box origin in {zero, centred on the origin, bounds "
-        "summing to zero, arbitrary}, orthogonal or (where the routine documents it) triclinic cell; parameters from "
-        "small finite sets, 'repeat an earlier call' rules, optional output files, optional reuse of analysis objects, "
-        "optional deep-copy differential, 'rebuild all inputs as fresh value-equal objects' steps and 'overwrite the inputs "
-        "in place with other contents / call / restore / call' steps.  Non-trivial history = >= 2 different entry points and >= 1 repeated "
-        "(entry, params, out) call with at least one other call in between."
-        % (len(CATALOGUE), len(FAMILIES)))
+RULE = ("histories of <= 10 calls of public analysis entry points (catalogue of %d entries in %d families; measured API "
+        "coverage in facet flag_coverage) on one shared world: d in {2,3}, N 8..16, 2..3 frames, K 1..5 species, box origin in "
+        "{zero, centred on the origin, bounds summing to zero, arbitrary}, orthogonal or (where the routine documents it) "
+        "triclinic cell; 80 %% ordinary worlds, 20 %% unusual-but-accepted ones (labels not 1..K, per-frame permuted labels, "
+        "int32 labels, non-contiguous positions, logarithmic time steps); parameters from small finite sets that take every "
+        "documented value of every flag, 'repeat an earlier call' rules, optional output files, analysis objects kept alive "
+        "and shared between calls (2 in 3), optional deep-copy differential, 'rebuild all inputs as fresh value-equal "
+        "objects' steps and 'overwrite the inputs in place with other contents / call / restore / call' steps.  Non-trivial "
+        "history = >= 2 different entry points and >= 1 repeated (entry, params, out) call with at least one other call in "
+        "between." % (len(CATALOGUE), len(FAMILIES)))
 ASSUMPTIONS = [
     "bulk coordinates / fields come from numpy.random.default_rng seeded with Hypothesis-drawn integers (pure function "
     "of the seed; shrinks in the discrete choices, not in the coordinates)",
     "results are compared with themselves only (no reference values): a routine that is consistently wrong is the "
-    "business of C03-C20, not of this check",
+    "business of C03-C20, not of this check -- in particular in the off-domain worlds",
     "VolumeMatrix is called with transform_matrix=False only (A A^T is singular by volume conservation, so the "
-    "transformed matrix has no contract, cf. C20); OMP_NUM_THREADS=1 (set by ./check) for freud",
-    "Dynamics.sq4 is called only for (mode, cal_type) whose mobile subset is non-empty in every origin frame",
+    "transformed matrix has no contract, cf. C20; listed in c18_inventory.FLAG_EXEMPT); OMP_NUM_THREADS=1 (set by "
+    "./check) for freud",
+    "Dynamics.sq4 is called only for (mode, cal_type) whose mobile subset is non-empty in every origin frame, and with a "
+    "condition only when the selected AND mobile subset is non-empty as well",
     "equality of results is array_equal with NaN == NaN (0.0 == -0.0 accepted); equality of inputs is byte equality",
     "mutate-and-restore treats the snapshot arrays like any other array argument: after an in-place update of their "
     "contents a NEW analysis object / call must see the new contents (analysis objects built before the update are "
     "not used across it)",
     "output files are compared at the precision of each written token (half a unit of its last digit), not at a "
     "format string copied from the current source",
+    "a live analysis object is shared only between calls whose constructor arguments agree; S2 objects start with "
+    "particle_s2() done and NematicOrder objects with tensor() done for the neighbour setting in their key (the docs "
+    "give that order: the correlation methods read the stored field), so a method's expected result is a function of "
+    "(inputs, params) alone",
+    "invariant (7) is not demanded across harness steps that rebuild or overwrite the inputs (a result may alias an input), "
+    "and compares result attributes of the object (s2_results, QIJ, smallqlm, largeQlm, ParticlePhi) like returned values",
+    "off-domain worlds: an exception raised inside PyMatterSim is accepted as a refusal of the input (and must be "
+    "repeated by a repeated call); the per-species parameter tables there have one row per type up to the largest label",
+    "the GSD / DCD readers and the voro++ wrappers are not exercised (packages / executable absent; C19 drives read_gsd "
+    "with duck-typed frames); every other public callable found by introspection is called directly by some entry",
 ]
 MANIFEST = {
-    "text": "Purity / repeatability of %d public analysis entry points: machine facet = generated call histories on "
-            "shared snapshots with byte-level input invariants, repeat-call equality, output-file round trips and a "
-            "deep-copy differential, re-allocation of all inputs and in-place overwrite/restore of all inputs; single_* "
-            "facets = the same checks per entry point in isolation." % len(CATALOGUE),
+    "text": "Purity / repeatability of the public analysis API (%d catalogue entries; API inventory by introspection with "
+            "measured coverage): machine facet = generated call histories on shared snapshots and shared live analysis "
+            "objects with byte-level input invariants, repeat-call equality, returned-value stability, output-file round "
+            "trips, a deep-copy differential, re-allocation of all inputs and in-place overwrite/restore of all inputs, in "
+            "ordinary and in unusual-but-accepted worlds (labels not 1..K, int32 labels, non-contiguous positions, "
+            "permuted labels, logarithmic time steps); chains facet = method chains of one class on one live object; "
+            "flag_coverage = deterministic sweep of every (entry, parameter set, output on/off) + completeness self-check "
+            "(every flag keyword takes all its values); single_* facets = the same checks per entry point in isolation."
+            % len(CATALOGUE),
     "note": "Self-consistency only (no reference values). Trusted: numpy/pandas readers used to parse the output "
-            "files, Hypothesis. voro++ wrapper (needs an external binary), GSD/DCD readers and the LAMMPS dump readers "
-            "are not in the catalogue (C01/C19 cover the readers).",
+            "files, Hypothesis. Not exercised, with reasons in the evidence: voro++ wrappers (external binary), GSD/DCD "
+            "readers (gsd, mdtraj absent); VolumeMatrix(transform_matrix=True) is exempt (singular matrix, no contract).",
     "technique": "property-based testing (Hypothesis): stateful model-based (rule-based state machine with invariants "
-                 "over a shared world) + per-entry metamorphic (call twice / call on a deep copy) + file round trip",
+                 "over a shared world and shared live objects) + per-entry metamorphic (call twice / call on a deep copy / "
+                 "overwrite-and-restore) + file round trip + finite enumeration of the catalogue with a traced API inventory",
 }
 
 ONLY = [s for s in os.environ.get("C18_ONLY", "").split(",") if s]  # debugging aid: restrict the catalogue
@@ -136,8 +187,12 @@ class History:
     (7) every array / DataFrame a call handed back to the caller must keep the bytes it had when the call returned, at
         every later step, as long as the inputs were not rebuilt / overwritten by the harness."""
 
-    def __init__(self, w, note=None):
+    def __init__(self, w, note=None, stride=1):
+        """stride > 1 (long deterministic sweeps): values returned more than `stride` calls ago are re-examined only at
+        every stride-th call and by `check_watch(..., full=True)`; a change is then found at most `stride` calls late."""
         self.w = w
+        self.stride = stride
+        self.ncheck = 0
         self.note = note or (lambda t: None)
         self.objs = {}
         self.keys = []     # key of every call, in order
@@ -145,8 +200,12 @@ class History:
         self.watch = []    # (index, key, live result, detached copy, fingerprint of the copy)
         self.repeat = self.interleaved = False
 
-    def check_watch(self, after):
-        for idx, key, live, frozen, fp in self.watch:
+    def check_watch(self, after, full=False):
+        self.ncheck += 1
+        lazy = self.stride > 1 and not full and self.ncheck % self.stride != 0
+        if self.stride > 1:
+            after = f"{after} (or one of the {self.stride} calls before it)"
+        for idx, key, live, frozen, fp in (self.watch[-self.stride:] if lazy else self.watch):
             if fingerprint(live) == fp:
                 continue
             m = same(frozen, live, "returned value")
@@ -237,8 +296,14 @@ def _pick(draw, seq, salt=0):
 
 
 # ordinary worlds 80 %, unusual-but-accepted inputs 20 % (c18_world.VARIANTS)
-VARIANT_ST = st.integers(0, 5 * (len(VARIANTS) - 1) - 1).map(lambda k: VARIANTS[1 + k % (len(VARIANTS) - 1)] if k % 5 == 4 else "plain")
-K_ST = st.sampled_from([1, 2, 2, 2, 3, 3, 4, 5])
+def _variant(k):
+    k = _mix(k)
+    return VARIANTS[1 + (k // 5) % (len(VARIANTS) - 1)] if k % 5 == 4 else "plain"
+
+
+_KS = [1, 2, 2, 2, 3, 3, 4, 5]
+VARIANT_ST = st.integers(0, 2 ** 16).map(_variant)
+K_ST = st.integers(0, 2 ** 16).map(lambda k: _KS[_mix(k + 17) % len(_KS)])
 
 
 def world_tags(kw):
@@ -255,7 +320,7 @@ WORLD_KW = dict(seed=st.integers(0, 2 ** 20), d=st.sampled_from([2, 3]), N=st.in
                 # families this history concentrates on (a session works with a few analyses, and order-dependent
                 # defects need the same objects to meet repeatedly); 0 = all families
                 focus=st.one_of(st.just(0), st.integers(1, 2 ** 20)))
-CALL_KW = dict(which=st.integers(0, 2 ** 16), p=st.integers(0, 5), out=st.booleans(), reuse=st.sampled_from([True, True, False]),
+CALL_KW = dict(which=st.integers(0, 2 ** 16), p=st.integers(0, 63), out=st.booleans(), reuse=st.sampled_from([True, True, False]),
                dup=st.booleans())
 
 
@@ -415,7 +480,7 @@ def _add_rules():
     for fam in FAMILIES:
         def mkmut(fam):
             @precondition(lambda self: self.w is not None and bool(self.fam.get(fam)))
-            @rule(which=st.integers(0, 2 ** 16), p=st.integers(0, 5), out=st.booleans(), seed2=st.integers(0, 2 ** 20))
+            @rule(which=st.integers(0, 2 ** 16), p=st.integers(0, 63), out=st.booleans(), seed2=st.integers(0, 2 ** 20))
             def r(self, which, p, out, seed2):
                 self._mutres_rule(fam, which, p, out, seed2)
             r.__name__ = f"r_mut_{fam}"
@@ -664,7 +729,8 @@ def replay_sweep(case):
 
 
 def gen_sweep(tier):
-    """(a) every (entry, params, output on/off) of the catalogue once, in fixed small worlds (two ordinary ones, two with
+    """(a) every (entry, params, output on/off) of the catalogue once -- and in the two ordinary worlds every (entry, params)
+    a second time in the opposite order, so that each is repeated with the whole catalogue in between (2) -- in fixed small worlds (two ordinary ones, two with
     unusual species labels, three for the 1-, 4- and 5-species methods, one or two per other off-domain variant for the
     families it concerns), all through ONE set of live analysis objects per world, with invariants (1), (3), (7) after every call;  (b) while that runs, a profiler hook records which public
     callables of PyMatterSim are entered and with which flag values;  (c) the API inventory and the flag coverage are
@@ -676,9 +742,12 @@ def gen_sweep(tier):
         for k, (outs, fams, kw) in enumerate(SWEEP_WORLDS):
             with tracer:  # the harness constructs SingleSnapshot / Snapshots itself
                 w = _sweep_world(os.path.join(root, f"w{k}"), **kw)
-            h = History(w)
+            h = History(w, stride=20)
             before = []
-            for name, p, out in _sweep_calls(outs, fams, w):
+            todo = list(_sweep_calls(outs, fams, w))
+            if outs:  # second pass in the opposite order: every call without output file is then a REPEAT (invariant 2)
+                todo += [c for c in reversed(todo) if not c[2]]
+            for name, p, out in todo:
                 case = {"world": dict(w.kw), "entry": name, "p": p, "out": out, "before": list(before)}
                 tracer.current = name
                 try:
@@ -696,6 +765,11 @@ def gen_sweep(tier):
                 yield {k2: v for k2, v in case.items() if k2 != "before"}, {
                     "nontrivial": not rejected(res), "tags": ["sweep:" + name, f"sweep-world-{kw['variant']}"]
                     + ([REJECTED] if rejected(res) else []), "extra": {"sweep_calls": 1}}
+            try:
+                h.check_watch("the last call of the sweep", full=True)
+            except Violation as v:
+                v.case = {"world": dict(w.kw), "entry": name, "p": p, "out": out, "before": list(before)}
+                raise
             shutil.rmtree(w.root, ignore_errors=True)
     finally:
         shutil.rmtree(root, ignore_errors=True)
